@@ -284,6 +284,9 @@ func (s *Sim) opC06Unbond() {
 	msg := &dualstakingtypes.MsgUnbond{Creator: acc.Addr, Validator: h.Val.String(), Provider: d.Provider, ChainID: "chainID", Amount: s.Coin(amount)}
 	r.Logf("c06_unbond: %s from %s via %s %d (has %s at provider, %s at validator) ...", acc.Name, s.c06ProvName(d.Provider), s.c06ValName(h.Val), amount, d.Amount.Amount, h.Tokens)
 	res := s.c06Tx("c06_unbond", msg)
+	if res.Err == nil {
+		r.Probe("c06_provider_unbond_accepted")
+	}
 	r.Logf("   ... c06_unbond: %s", short(res.Err))
 }
 
@@ -432,6 +435,9 @@ func (s *Sim) opC06CancelUnbond() {
 	msg := stakingtypes.NewMsgCancelUnbondingDelegation(e.acc.Account.Addr, e.val, e.height, s.Coin(amount))
 	r.Logf("c06_cancel_unbond: %s at %s height=%d %d (entry %s) ...", e.acc.Name, s.c06ValName(e.val), e.height, amount, e.bal)
 	res := s.c06Tx("c06_cancel_unbond", msg)
+	if res.Err == nil {
+		r.Probe("c06_cancel_unbonding_accepted")
+	}
 	r.Logf("   ... c06_cancel_unbond: %s", short(res.Err))
 }
 
@@ -454,6 +460,7 @@ func (s *Sim) opC06ValCreate() {
 	if res.Err == nil {
 		st.spareVals = st.spareVals[1:]
 		s.Validators = append(s.Validators, v)
+		r.Probe("c06_validator_created")
 	}
 	r.Logf("c06_val_create %s self=%d: %s", v.Name, amount, short(res.Err))
 }
@@ -473,6 +480,9 @@ func (s *Sim) opC06Unjail() {
 	}
 	v := jailed[r.Draw("ops", len(jailed))]
 	res := s.c06Tx("c06_unjail", slashingtypes.NewMsgUnjail(c06Val(v)))
+	if res.Err == nil {
+		r.Probe("c06_validator_unjailed")
+	}
 	r.Logf("c06_unjail %s: %s", v.Name, short(res.Err))
 }
 
@@ -547,6 +557,9 @@ func (s *Sim) opC06Multi() {
 	res := s.c06Tx("c06_multi", msgs...)
 	if mixed && res.Err != nil {
 		r.Probe("c06_mixed_redelegate_batch_refused")
+	}
+	if res.Err == nil {
+		r.Probe("c06_multi_message_tx_accepted")
 	}
 	if !mixed && nRed > 0 && res.Err == nil {
 		r.Probe("c06_redelegate_hooks_suppressed")
